@@ -87,6 +87,7 @@ class DM14Server:
             self._ca.unsubscribe(self._parse_dm16)
             self.state = ResponseState.IDLE
             self.sa = None
+            self.address = None
 
     def parse_dm14(
         self, priority: int, pgn: int, sa: int, timestamp: int, data: bytearray
@@ -163,6 +164,8 @@ class DM14Server:
             case ResponseState.WAIT_OPERATION_COMPLETE:
                 self.state = ResponseState.IDLE
                 self.sa = None
+                # the transaction is over: the next request may address another pointer
+                self.address = None
                 self._ca.unsubscribe(self.parse_dm14)
 
             case _:
